@@ -39,6 +39,7 @@ func authnInline(P *Program) func(*ssa.Function) bool {
 }
 
 func runC15(c *Ctx) {
+	defer checkConfigGetters(c, "C15.R5", "GetGrantTypeJWTBearerIDOptional", "GetGrantTypeJWTBearerIssuedDateOptional", "GetJWTMaxDuration", "GetTokenURLs")
 	c15R1(c)
 	c15R2(c)
 	c15R3(c)
